@@ -430,11 +430,25 @@ func RuleTransport(r *Report, p *Program, rules aspectSet) {
 					continue
 				}
 				n++
-				sl := evIdx(pa, func(e Event) bool { return isCall(e, "time.Sleep") })
-				if len(sl) != 1 || sl[0] < gos[0] || pa.Events[sl[0]].Args[0].String() != "u.timeout" {
+				// the wait: time.Sleep(timeout), or a receive from time.After(timeout)
+				sl := evIdx(pa, func(e Event) bool {
+					return isCall(e, "time.Sleep") || (e.Kind == "recv" && strings.HasPrefix(e.Name, "time.After"))
+				})
+				waited := ""
+				if len(sl) == 1 {
+					e := pa.Events[sl[0]]
+					if e.Kind == "recv" {
+						if len(e.Args) == 1 && e.Args[0].Op == "call" && len(e.Args[0].Args) == 1 {
+							waited = e.Args[0].Args[0].String()
+						}
+					} else {
+						waited = e.Args[0].String()
+					}
+				}
+				if len(sl) != 1 || sl[0] < gos[0] || waited != "u.timeout" {
 					bad = "after starting the reply collector the call does not wait exactly the configured timeout before returning"
 					if len(sl) == 1 {
-						bad += " (waits " + pa.Events[sl[0]].Args[0].String() + ")"
+						bad += " (waits " + waited + ")"
 					}
 				}
 			}
